@@ -200,10 +200,10 @@ Section Exact.
   Hypothesis HnoneT : has_none_key T = false.
   Hypothesis Hprun : prun < 0.
 
-  (* a chunk of the superrun [a,b) inside the covered range whose subruns are exactly clip a b T *)
+  (* a chunk of the superrun [a,b) whose subruns are exactly clip a b T *)
   Definition exactc (c : achunk) : Prop :=
     let b := abase c in
-    crun b = Some prun /\ cstart b <= cend b /\ t_lo T <= cstart b /\ cend b <= t_hi T /\
+    crun b = Some prun /\ cstart b <= cend b /\
     asub c = none_if_empty (clip (cstart b) (cend b) T) /\
     asuper c = [mkspan (Some prun) (cstart b) (cend b)].
 
@@ -226,23 +226,9 @@ Section Exact.
 
   Lemma is_superrun_exact c : exactc c -> is_superrun c = Ok (match clip (cstart (abase c)) (cend (abase c)) T with [] => false | _ => true end).
   Proof.
-    intros (Hr & _ & _ & _ & Hs & _). unfold is_superrun. rewrite Hs.
+    intros (Hr & _ & Hs & _). unfold is_superrun. rewrite Hs.
     destruct (clip _ _ T); cbn [none_if_empty]; [reflexivity|]. rewrite Hr.
     destruct (prun <? 0) eqn:E; [reflexivity|lia].
-  Qed.
-
-  Hypothesis Htight : tight T.
-
-  Lemma promised_exact c : exactc c -> promised_continuity c = Ok true.
-  Proof.
-    intros Hc. pose proof Hc as (Hr & Hab & Hlo & Hhi & Hs & Hsup).
-    unfold promised_continuity. rewrite (is_superrun_exact c Hc). cbn [res_bind].
-    destruct (clip (cstart (abase c)) (cend (abase c)) T) as [|x r] eqn:E; [reflexivity|].
-    cbn [negb]. unfold subs_of. rewrite Hs. cbn [none_if_empty]. rewrite <- E.
-    destruct (Z.eq_dec (cstart (abase c)) (cend (abase c))) as [Heq|Hne].
-    { rewrite Heq, clip_empty_range in E by lia. discriminate. }
-    destruct (clip_tight_ends T HwT Htight (cstart (abase c)) (cend (abase c))) as (_ & H1 & H2); try lia.
-    rewrite H1, H2, !Z.eqb_refl. reflexivity.
   Qed.
 
   (* split_array never moves the split time forward *)
@@ -261,8 +247,8 @@ Section Exact.
     exactc c1 /\ exactc c2 /\ cend (abase c1) = cstart (abase c2) /\
     cstart (abase c1) = cstart (abase c) /\ cend (abase c2) = cend (abase c).
   Proof.
-    intros Hc H. pose proof Hc as (Hr & Hab & Hlo & Hhi & Hs & Hsup).
-    unfold asplit in H. rewrite (promised_exact c Hc) in H. cbn [res_bind] in H.
+    intros Hc H. pose proof Hc as (Hr & Hab & Hs & Hsup).
+    unfold asplit in H.
     set (b := abase c) in *. set (t := Z.max (Z.min t0 (cend b)) (cstart b)) in *.
     destruct (if t =? cend b then Some (crows b, [], t)
               else if t =? cstart b then Some ([], crows b, t) else split_array (crows b) t early)
@@ -305,7 +291,7 @@ Section Exact.
     aconcatenate [Some c1; Some c2] allow = Ok c ->
     exactc c /\ cstart (abase c) = cstart (abase c1) /\ cend (abase c) = cend (abase c2).
   Proof.
-    intros (Hr1 & Hab1 & Hlo1 & Hhi1 & Hs1 & Hsup1) (Hr2 & Hab2 & Hlo2 & Hhi2 & Hs2 & Hsup2) Hadj H.
+    intros (Hr1 & Hab1 & Hs1 & Hsup1) (Hr2 & Hab2 & Hs2 & Hsup2) Hadj H.
     unfold aconcatenate in H. cbn [somes] in H.
     destruct (negb _); [discriminate|].
     assert (Hsame : all_same_run c1 [c1; c2] = true).
@@ -334,8 +320,8 @@ Section Exact.
   Proof.
     unfold asplit. intros H.
     destruct (if _ =? _ then _ else _) as [[[d1 d2] t']|]; [|discriminate].
-    bind_inv H. bind_inv H. bind_inv H. inversion H; subst.
-    apply mk_achunk_ok in Hx0 as (-> & _). apply mk_achunk_ok in Hx1 as (-> & _). cbn. repeat split; reflexivity.
+    bind_inv H. bind_inv H. inversion H; subst.
+    apply mk_achunk_ok in Hx as (-> & _). apply mk_achunk_ok in Hx0 as (-> & _). cbn. repeat split; reflexivity.
   Qed.
 
   Lemma aconcatenate_fields c1 c2 allow c :
@@ -360,7 +346,7 @@ Section Exact.
     pose proof (asplit_rows _ _ _ _ _ Hs) as Hrows. pose proof (aconcatenate_rows _ _ _ Hcat) as Hrows'.
     destruct (asplit_fields _ _ _ _ _ Hs) as (Hd1 & Hk1 & Ht1 & Hd2 & Hk2 & Ht2).
     destruct (aconcatenate_fields _ _ _ _ Hcat) as (Hd & Hk & Ht).
-    destruct Hc as (Hr & Hab & Hlo & Hhi & Hsub & Hsup). destruct Hc' as (Hr' & Hab' & Hlo' & Hhi' & Hsub' & Hsup').
+    destruct Hc as (Hr & Hab & Hsub & Hsup). destruct Hc' as (Hr' & Hab' & Hsub' & Hsup').
     unfold rows_a in *. cbn [somes rows_of_stream flat_map] in Hrows'. rewrite app_nil_r in Hrows'.
     destruct c as [b sub sup]. destruct c' as [b' sub' sup'].
     destruct b as [a e rows dt k run tgt]. destruct b' as [a' e' rows' dt' k' run' tgt'].
@@ -503,16 +489,15 @@ Section Exact.
       congruence.
   Qed.
 
-  (* a stored exact chunk of positive duration comes back unchanged (the json round trip re-orders the
+  (* a stored exact chunk that covers some sub-run comes back unchanged (the json round trip re-orders the
      dict by run id, the setter re-sorts it by start) *)
   Lemma load_save_exact c :
-    exactc c -> cstart (abase c) < cend (abase c) ->
+    exactc c -> clip (cstart (abase c)) (cend (abase c)) T <> [] ->
     mk_chunk (cstart (abase c)) (cend (abase c)) (crows (abase c)) (cdtype (abase c)) (ckind (abase c))
              (crun (abase c)) (ctarget (abase c)) = Ok (abase c) ->
     load_chunk (save_chunk c) = Ok c.
   Proof.
-    intros Hc Hlt Hmk. pose proof Hc as (Hr & Hab & Hlo & Hhi & Hs & Hsup).
-    destruct (clip_tight_ends T HwT Htight (cstart (abase c)) (cend (abase c))) as (Hne & _ & _); try lia.
+    intros Hc Hne Hmk. pose proof Hc as (Hr & Hab & Hs & Hsup).
     unfold load_chunk, save_chunk. cbn [st_base st_sub]. rewrite Hs.
     destruct (clip (cstart (abase c)) (cend (abase c)) T) as [|x r] eqn:E; [contradiction|].
     cbn [none_if_empty]. rewrite <- E in *. unfold mk_achunk.
